@@ -2,11 +2,15 @@
 // std::atomic under ThreadSanitizer.  A serialising scheduler's hand-offs are happens-before edges
 // that would blind a race detector, so data races on non-atomic shared memory are looked for here.
 // This pass samples schedules (whatever the OS produces); the exactly-once / true-hit verdict comes
-// from the exhaustive E-SCHED section.  The functional oracle is evaluated here as well.
+// from the exhaustive E-SCHED sections.  The functional oracle is evaluated here as well.
+// Round 2: instantiated for signed and narrow IntT too (ranges crossing zero, at the type minimum and
+// maximum), with a counting progress_fn as well as nullptr, and with num_threads = 0.
 #include <stdint.h>
 
 #include <atomic>
+#include <limits>
 #include <string>
+#include <thread>
 #include <unordered_set>
 #include <vector>
 
@@ -15,80 +19,121 @@
 
 namespace {
 
-struct Cfg { int fn; uint64_t start, n, block; size_t threads; int64_t hit; };  // hit: offset of the single true value, -1 none, -2 = every third value true
+// hit: offset of the single true value, -1 none, -2 = every third value true
+struct Cfg { int fn; int64_t start; uint64_t n, block; size_t threads; int64_t hit; bool progress; };
 
+template <class IntT>
 std::string run(const Cfg& c) {
   // non-atomic per-value slots: two invocations for one value are a data race TSan reports, and
   // the counts are verified after the join
   std::vector<uint32_t> hits(c.n, 0);
   std::vector<uint32_t> tn_seen(c.n, 0);
   std::atomic<uint64_t> outside{0};
+  size_t nthreads = c.threads ? c.threads : std::thread::hardware_concurrency();
   auto truth = [&](uint64_t off) { return c.hit == -2 ? (off % 3 == 1) : ((int64_t)off == c.hit); };
-  std::function<bool(uint64_t, size_t)> cb = [&](uint64_t v, size_t tn) {
-    if (v < c.start || v - c.start >= c.n) { outside++; return false; }
-    hits[v - c.start]++;
-    tn_seen[v - c.start] = (uint32_t)tn;
-    return truth(v - c.start);
+  uint64_t start_ext = (uint64_t)c.start;
+  std::function<bool(IntT, size_t)> cb = [&](IntT v, size_t tn) {
+    uint64_t off = (uint64_t)v - start_ext;
+    if (off >= c.n) { outside++; return false; }
+    hits[off]++;
+    tn_seen[off] = (uint32_t)tn;
+    return truth(off);
   };
-  uint64_t end = c.start + c.n, ret = end;
-  std::unordered_set<uint64_t> retset;
-  if (c.fn == 0) ret = phosg::parallel_range<uint64_t>(cb, c.start, end, c.threads, nullptr);
-  else if (c.fn == 1) ret = phosg::parallel_range_blocks<uint64_t>(cb, c.start, end, c.block, c.threads, nullptr);
-  else retset = phosg::parallel_range_blocks_multi<uint64_t>(cb, c.start, end, c.block, c.threads, nullptr);
+  std::atomic<uint64_t> polls{0};
+  std::function<void(IntT, IntT, IntT, uint64_t)> prog = nullptr;
+  if (c.progress) prog = [&](IntT, IntT, IntT, uint64_t) { polls++; };
+  IntT start = (IntT)c.start, end = (IntT)(c.start + (int64_t)c.n), ret = end;
+  std::unordered_set<IntT> retset;
+  if (c.fn == 0) ret = phosg::parallel_range<IntT>(cb, start, end, c.threads, prog);
+  else if (c.fn == 1) ret = phosg::parallel_range_blocks<IntT>(cb, start, end, (IntT)c.block, c.threads, prog);
+  else retset = phosg::parallel_range_blocks_multi<IntT>(cb, start, end, (IntT)c.block, c.threads, prog);
   if (outside) return "callback invoked outside the range";
   bool any_true = false;
   for (uint64_t i = 0; i < c.n; i++) {
     if (hits[i] > 1) return "value invoked more than once";
-    if (tn_seen[i] >= c.threads) return "thread_num out of range";
+    if (tn_seen[i] >= nthreads) return "thread_num out of range";
     any_true |= truth(i);
   }
   if (c.fn == 2) {
     for (uint64_t i = 0; i < c.n; i++) {
       if (hits[i] != 1) return "_multi skipped a value";
-      if ((retset.count(c.start + i) != 0) != truth(i)) return "_multi result differs from the true set";
+      if ((retset.count((IntT)(c.start + (int64_t)i)) != 0) != truth(i)) return "_multi result differs from the true set";
     }
+    size_t want = 0;
+    for (uint64_t i = 0; i < c.n; i++) want += truth(i);
+    if (retset.size() != want) return "_multi result differs from the true set";
     return "";
   }
   if (!any_true) {
     for (uint64_t i = 0; i < c.n; i++) if (hits[i] != 1) return "no hit, but a value was skipped";
     return ret == end ? "" : "no hit, but the return value is not end_value";
   }
-  if (ret < c.start || ret >= end || !truth(ret - c.start)) return "returned value is not one for which the callback returned true";
+  uint64_t roff = (uint64_t)ret - start_ext;
+  if (roff >= c.n || !truth(roff)) return "returned value is not one for which the callback returned true";
   return "";
+}
+
+const char* ty_names[] = {"uint64_t", "int8_t", "int32_t", "int64_t", "uint8_t", "int16_t"};
+std::string run_ty(int ty, const Cfg& c) {
+  switch (ty) {
+    case 0: return run<uint64_t>(c);
+    case 1: return run<int8_t>(c);
+    case 2: return run<int32_t>(c);
+    case 3: return run<int64_t>(c);
+    case 4: return run<uint8_t>(c);
+    default: return run<int16_t>(c);
+  }
 }
 
 }  // namespace
 
 VF_SECTION(tsan_free_running, 4, 8, 300) {
   static const char* names[] = {"parallel_range", "parallel_range_blocks", "parallel_range_blocks_multi"};
-  std::vector<uint64_t> ranges = {0, 1, 7, 64, 5000};
   int reps = r.thorough() ? 12 : 2;
+  // (type, start, n): uint64_t as in round 1; signed and narrow types with ranges crossing zero and touching the type limits
+  struct R { int ty; int64_t start; uint64_t n; };
+  std::vector<R> ranges = {{0, 1000, 0}, {0, 1000, 1}, {0, 1000, 7}, {0, 1000, 64}, {0, 1000, 5000},
+      {1, -128, 255}, {1, -100, 127}, {1, -3, 7}, {2, -2500, 5000}, {2, std::numeric_limits<int32_t>::min(), 64}, {2, std::numeric_limits<int32_t>::max() - 64, 64},
+      {3, -3, 5000}, {3, std::numeric_limits<int64_t>::min(), 64}, {3, std::numeric_limits<int64_t>::max() - 7, 7}, {4, 0, 255}, {4, 191, 64}, {5, -32768, 5000}, {5, 32767 - 64, 64}};
   for (int fn = 0; fn < 3; fn++) {
-    for (uint64_t n : ranges) {
+    for (auto& rg : ranges) {
+      uint64_t n = rg.n;
       std::vector<uint64_t> blocks = {1};
-      if (fn != 0) { blocks.clear(); for (uint64_t b : {1ull, 7ull, 8ull, 64ull, 1000ull, 5000ull}) if (n == 0 ? b <= 7 : (b <= n && n % b == 0)) blocks.push_back(b); }
+      if (fn != 0) {
+        blocks.clear();
+        for (uint64_t b : {1ull, 7ull, 8ull, 64ull, 85ull, 127ull, 1000ull, 5000ull})
+          if ((n == 0 ? b <= 7 : (b <= n && n % b == 0)) && (rg.ty != 1 || b <= 127)) blocks.push_back(b);
+      }
       for (uint64_t b : blocks) {
-        for (size_t t = 1; t <= 16; t++) {
+        for (size_t t = 0; t <= 16; t++) {
           if (!r.thorough() && !(t <= 4 || t == 8 || t == 16)) continue;
-          for (int64_t hit : {(int64_t)-1, (int64_t)0, (int64_t)(n / 2), (int64_t)-2}) {
+          if (rg.ty != 0 && !(t == 0 || t == 2 || t == 3 || t == 8 || (r.thorough() && t == 16))) continue;
+          for (int64_t hit : {(int64_t)-1, (int64_t)0, (int64_t)(n / 2), (int64_t)(n - 1), (int64_t)-2}) {
             if (hit >= 0 && (uint64_t)hit >= n) continue;
-            for (int rep = 0; rep < reps; rep++) {
-              if (!r.take()) continue;
-              Cfg c{fn, 1000, n, b, t, hit};
-              r.note(names[fn]);
-              if (r.wants_desc()) r.desc(vf::fmt("%s(range=[1000,%llu), block=%llu, threads=%zu, hit=%lld) free-running under TSan, repetition %d", names[fn], (unsigned long long)(1000 + n), (unsigned long long)b, t, (long long)hit, rep));
-              std::string f = run(c);
-              if (t > 1 && n > 1) r.nontriv();
-              if (!f.empty()) r.fail(std::string(names[fn]) + ":free-running:" + (f.find("once") != std::string::npos ? "invoked-twice" : f.find("outside") != std::string::npos ? "outside-range" : "oracle"),
-                  [&] { return vf::fmt("%s(range=[1000,%llu), block=%llu, threads=%zu, hit=%lld): %s (schedule-dependent; replay may need repetition)", names[fn], (unsigned long long)(1000 + n), (unsigned long long)b, t, (long long)hit, f.c_str()); });
-              else r.ok("free-run-ok");
+            if (hit == (int64_t)(n - 1) && (hit == (int64_t)(n / 2) || hit == 0)) continue;
+            for (int prog = 0; prog < 2; prog++) {
+              // the real progress loop sleeps for a second per poll: a handful of cases only
+              if (prog && !(n == 7 && b == 1 && t == 2 && hit == -1)) continue;
+              for (int rep = 0; rep < (prog ? 1 : reps); rep++) {
+                if (!r.take()) continue;
+                Cfg c{fn, rg.start, n, b, t, hit, (bool)prog};
+                r.note(names[fn]);
+                std::string d = vf::fmt("%s<%s>(range=[%lld,%lld), block=%llu, threads=%zu, hit=%lld, progress_fn=%s)", names[fn], ty_names[rg.ty], (long long)rg.start, (long long)(rg.start + (int64_t)n),
+                    (unsigned long long)b, t, (long long)hit, prog ? "counting" : "nullptr");
+                if (r.wants_desc()) r.desc(d + vf::fmt(" free-running under TSan, repetition %d", rep));
+                std::string f = run_ty(rg.ty, c);
+                if (t != 1 && n > 1) r.nontriv();
+                if (!f.empty()) r.fail(std::string(names[fn]) + ":free-running:" + (f.find("once") != std::string::npos ? "invoked-twice" : f.find("outside") != std::string::npos ? "outside-range" : "oracle"),
+                    [&] { return d + ": " + f + " (schedule-dependent; replay may need repetition)"; });
+                else r.ok("free-run-ok");
+              }
             }
           }
         }
       }
     }
   }
-  r.bound = "supportive: free-running executions under ThreadSanitizer over threads 1..16 x ranges {0,1,7,64,5000} x block sizes x hit positions (sampled schedules, not exhaustive)";
+  r.bound = "supportive: free-running executions under ThreadSanitizer: uint64_t ranges {0,1,7,64,5000} x threads 0..16 x block sizes x hit positions; int8/int16/int32/int64/uint8 ranges crossing zero and at the type minimum/maximum x threads {0,2,3,8}; counting progress_fn on the small ranges (sampled schedules, not exhaustive)";
 }
 
 VF_MAIN()
